@@ -54,7 +54,7 @@ META = {
     'scale': {'quick': 1, 'thorough': 6},
     'exhaustive': {'quick': True, 'thorough': True},
     'random_cases': {'quick': 1600, 'thorough': 32000},
-    'curve_cases': {'quick': 700, 'thorough': 14000},
+    'curve_cases': {'quick': 2000, 'thorough': 14000},
     'assumptions': ['"ascending" position lists are non-decreasing (repeats allowed, as add_points_even passes '
                     '[l,r,l,r,...]); the exhaustive scope enumerates the strictly ascending ones',
                     'a removed table is "the table of the reduction" iff, for every retained point, the counts of '
